@@ -21,7 +21,7 @@ package identity
 //@   ensures old(i.versions[0].id) != entity.UnsetId ==> i.versions[0].id == old(i.versions[0].id)
 
 //@ func (*Identity).Merge
-//@   props C09 C02 C15 C11
+//@   props C09 C02 C15 C11 C07
 //@   ensures [own-namespace-only] forall k string :: { (k in repository.refs) } !strings.HasPrefix(k, "refs/identities/") ==> (k in repository.refs) == (k in old(repository.refs)) && repository.refs[k] == old(repository.refs)[k]
 //@   nopanic
 //@   modifies i.versions, elems(i.versions), repository.refs, i.versions[0].id, other.versions[0].id
